@@ -165,4 +165,8 @@ def refstring(fn):
 
 def is_tooled(fn):
     """Return whether a function has been tooled for Ptera."""
-    return isinstance(fn, types.FunctionType) and hasattr(fn, "__ptera_info__")
+    # (a function whose last probe has ended keeps the attribute, set to None)
+    return (
+        isinstance(fn, types.FunctionType)
+        and getattr(fn, "__ptera_info__", None) is not None
+    )
